@@ -27,6 +27,10 @@ def _canon_compare(n):
     return n
 
 
+_DEPTH = [0]
+EXTRA_DEFS = {}
+
+
 def _single_defs(root):
     cnt = {}
     val = {}
@@ -89,6 +93,21 @@ def _match(p, n, b):
                 if nb is not None:
                     return nb
         return None
+    if isinstance(p, ast.Raise) and isinstance(n, ast.Raise) and isinstance(p.exc, ast.Name) and \
+            isinstance(n.exc, ast.Call) and p.cause is None:
+        # `raise KeyError` also matches `raise KeyError('message')`
+        return _match(p.exc, n.exc.func, b)
+    if isinstance(n, ast.Name) and isinstance(n.ctx, ast.Load) and not isinstance(p, ast.Name) and \
+            isinstance(p, ast.expr) and n.id in _DEFS and _DEPTH[0] < 4:
+        # a sub-expression kept in a single-assignment local (or in a module constant that is new to the reviewed
+        # tree) stands for its definition
+        _DEPTH[0] += 1
+        try:
+            return _match(p, _DEFS[n.id], b)
+        finally:
+            _DEPTH[0] -= 1
+    if isinstance(p, ast.List) and isinstance(n, ast.Tuple) and isinstance(getattr(n, 'ctx', None), ast.Load):
+        n = ast.List(elts=n.elts, ctx=ast.Load())          # a literal list or tuple of words
     if type(p) is not type(n):
         return None
     for fld, pv in ast.iter_fields(p):
@@ -180,6 +199,7 @@ def find(root, patterns, binding=None, nodes_out=None):
     empty), else the best partial binding and the list of unmatched patterns."""
     pats = [(p, parse_pattern(p)) for p in patterns]
     _DEFS.clear()
+    _DEFS.update(EXTRA_DEFS)
     _DEFS.update(_single_defs(root))
 
     matched = []
